@@ -21,6 +21,16 @@ func (f *File) ProtoText() string {
 	for _, m := range f.Messages {
 		writeMsg(&sb, m, "")
 	}
+	for _, s := range f.Siblings {
+		sf := f.siblingFile(s)
+		fmt.Fprintf(&sb, "\n// ---- imported file %s (same package)\n", sf.Name)
+		for _, e := range sf.Enums {
+			writeEnum(&sb, e, "")
+		}
+		for _, m := range sf.Messages {
+			writeMsg(&sb, m, "")
+		}
+	}
 	return sb.String()
 }
 
